@@ -152,6 +152,13 @@ wait:
 	}
 	rawRes, rerr := os.ReadFile(resPath)
 	if rerr != nil {
+		if v := fatalCrash(stderr.String()); v != nil {
+			// the Go runtime itself stopped the process inside the code under test
+			// (invalid pointer arithmetic, concurrent map access, corrupted heap):
+			// no result file can exist, the crash is the outcome
+			out.res = &scn.Result{Prop: s.Prop, RunSeed: s.RunSeed, Violations: []scn.Violation{*v}, Faults: map[string]int64{}, Probes: map[string]int64{"process_stopped_by_runtime_fatal_error": 1}}
+			return out
+		}
 		out.infra = fmt.Sprintf("simnode produced no result (%v): %s", werr, tail(stderr.String(), 1500))
 		return out
 	}
@@ -429,4 +436,48 @@ func (b *build) runMany(dir string, n, par int, gen func(i int) *scn.Scenario, d
 	}
 	wg.Wait()
 	return started
+}
+
+// fatalCrash recognises a fatal error of the Go runtime ("fatal error: ...",
+// which no recover can catch) whose crashing goroutine is inside a package of
+// the repository under test. Such a crash is an outcome of the code under test
+// - in a real program it takes every other goroutine's work down with it - and
+// not trouble of the harness: it is returned as a violation (and, like every
+// violation, only reported if the replay shows it again). A fatal error with no
+// repository frame in the crashing goroutine stays infrastructure trouble.
+func fatalCrash(stderr string) *scn.Violation {
+	k := strings.Index(stderr, "fatal error: ")
+	if k < 0 {
+		return nil
+	}
+	rest := stderr[k:]
+	msg := rest
+	if i := strings.Index(msg, "\n"); i >= 0 {
+		msg = msg[:i]
+	}
+	// the first goroutine listed is the one that crashed
+	g := rest
+	if i := strings.Index(g, "\ngoroutine "); i >= 0 {
+		g = g[i+1:]
+	}
+	if i := strings.Index(g, "\n\n"); i >= 0 {
+		g = g[:i]
+	}
+	frame := ""
+	for _, l := range strings.Split(g, "\n") {
+		if strings.HasPrefix(l, "github.com/z7zmey/php-parser/") && !strings.HasPrefix(l, "github.com/z7zmey/php-parser/pkg/zzsim") {
+			frame = strings.TrimPrefix(l, "github.com/z7zmey/php-parser/")
+			if i := strings.Index(frame, "("); i > 0 && !strings.HasPrefix(frame[i:], "(*") {
+				frame = frame[:i]
+			} else if j := strings.LastIndex(frame, "("); j > 0 {
+				frame = frame[:j]
+			}
+			break
+		}
+	}
+	if frame == "" {
+		return nil
+	}
+	return &scn.Violation{Oracle: "O0-no-runtime-crash", Sig: "fatal:" + strings.TrimPrefix(msg, "fatal error: ") + " in " + frame,
+		Detail: "the Go runtime stopped the whole process with [" + msg + "] while executing " + frame + " (code of the repository under test); in a program every other goroutine's work is lost with it. Crashing goroutine: " + oneLine(tail(g, 900))}
 }
